@@ -128,6 +128,23 @@ def rule_xref_writer(ctx, f):
                 used.add(a[2])
     ctx.check(used == {x[0] for x in bl}, "C10-SIB", "write_stream#entry-widths", "entry fields are not cut to the declared widths (8 - width .. of the big-endian bytes)",
               b["span"], detail="a.to_be_bytes()[8 - a_w ..], b.to_be_bytes()[8 - b_w ..]")
+    # /W lists the widths in the order the fields are written: W[1] is the width the first field is cut to, W[2] that of the second
+    def bl_of(op):
+        l = F.op_local(op)
+        return sorted({a[2] for a in fl.origins(l) if a[0] == "call" and last_seg(a[1]) == "byte_len"}) if l is not None else []
+    warr = [st for i, j, st in F.stmts(b) if st[0] == "assign" and st[2][0] == "aggregate" and st[2][1].get("k") == "array" and st[2][1].get("elem") == "usize" and len(st[2][2]) == 3]
+    cuts = sorted([(i, st) for i, j, st in F.stmts(b) if st[0] == "assign" and st[2][0] == "binop" and st[2][1].startswith("Sub") and F.const_int(st[2][2]) == 8 and F.op_local(st[2][3]) is not None],
+                  key=lambda c: sum(1 for d in [x for x in range(len(b["blocks"]))] if False))
+    cuts = [c for c in cuts if bl_of(c[1][2][3])]
+    cuts = sorted(cuts, key=lambda c: sum(1 for d in cuts if cfg.dominates(d[0], c[0]) and d[0] != c[0]))
+    if warr and len(cuts) == 2:
+        declared = [bl_of(o) for o in warr[0][2][2][1:]]
+        written = [bl_of(c[1][2][3]) for c in cuts]
+        ctx.check(declared == written and all(len(x) == 1 for x in declared), "C10-SIB", "write_stream#W-order", "/W declares the widths in another order than the fields are "
+                  "written (declared from byte_len calls %s, written %s): with unequal widths every entry is cut at the wrong bytes" % (declared, written), b["span"],
+                  detail="/W [1, width of the first field written, width of the second]")
+    else:
+        ctx.lost("C10-SIB", "the /W array literal or the two field cuts in write_stream")
     be = [t for bi, t in F.calls(b) if last_seg(F.callee_name(t)) == "to_be_bytes"]
     ctx.check(len(be) == 2, "C10-SIB", "write_stream#big-endian", "fields are not written big-endian", b["span"], detail="to_be_bytes x2")
 
@@ -268,6 +285,38 @@ def rule_order(ctx, f):
     ctx.floor("C10-ORDER", n, 3, "calls in save that hand on the storage (to_dict, promise, fulfill)")
 
 
+def rule_fields(ctx, f):
+    ctx.rule("C10-PAIR-fields", "the catalog builder copies each page attribute into the Page field of the same name (media_box -> media_box, trim_box -> trim_box ..)")
+    pb = f.adts.get("build::PageBuilder")
+    if not pb:
+        ctx.lost("C10-PAIR-fields", "build::PageBuilder")
+        return
+    src = {x["name"] for x in pb["variants"][0]["fields"]}
+    n = 0
+    for b in f.bodies.values():
+        if not b["id"].startswith("build::CatalogBuilder::build"):
+            continue
+        fl = None
+        for i, j, st in F.stmts(b):
+            if st[0] == "assign" and st[2][0] == "aggregate" and st[2][1].get("adt") == "object::types::Page":
+                fl = fl or Flow(b)
+                for nm, op in zip(st[2][1]["fields"], st[2][2]):
+                    if nm not in src or nm in ("resources",):
+                        continue
+                    fs = set()
+                    l = F.op_local(op)
+                    if l is not None:
+                        fl.origins(l, fields=fs)
+                    pl = F.op_place(op)
+                    if pl:
+                        Flow._note_fields(pl, fs)
+                    got = sorted(x for x in fs if x in src)
+                    n += 1
+                    ctx.check(got == [nm], "C10-PAIR-fields", "CatalogBuilder::build#%s" % nm, "Page.%s is filled from the builder's %s: the built page does not have the box / "
+                              "attribute it was given" % (nm, got or "nothing of that name"), b["blocks"][i]["term"].get("span", b["span"]), detail="%s <- page.%s" % (nm, nm))
+    ctx.floor("C10-PAIR-fields", n, 7, "page attributes copied by the builder")
+
+
 def run(ctx):
     f = F.load("default")
     ctx.count("bodies", len(f.bodies))
@@ -277,6 +326,7 @@ def run(ctx):
     rule_header(ctx, f)
     rule_size(ctx, f)
     rule_order(ctx, f)
+    rule_fields(ctx, f)
     adj.rule_framing(ctx, f, "C10")
     c09.rule_units(ctx, f) if False else None
     # written positions (shared with C09): registered under this property's own rule id
